@@ -133,6 +133,7 @@ type Engine struct {
 	root       *ssa.Function
 	opaque     map[string]bool  // canonical callee names never inlined
 	globalInit map[string]*Term // initial values of package-level variables that are never reassigned after init (key: gaddr term key)
+	maxRec     int              // how many recursive activations of one function may be inlined
 	stub map[string][]*Term // callee -> fixed results (composition with an outcome class of the callee)
 	hof        map[string]int   // opaque higher-order callee -> index of the function argument it runs (modelled as one synchronous call)
 	bind       map[string]*Term // term key -> replacement (composition presets)
@@ -423,6 +424,13 @@ func (e *Engine) run(s *state) []*state {
 			}
 			return forks
 		case *ssa.Call:
+			if e.maxRec > 0 {
+				// bounded unrolling of recursion: a deeper activation than the bound ends the path (like a loop cut)
+				if sc := v.Call.StaticCallee(); sc != nil && e.inModule(sc) && !e.opaque[funcName(sc)] && fr.depth < e.maxDepth && e.onStack(s, sc) {
+					e.stats.loopcut++
+					return nil
+				}
+			}
 			if e.doCall(s, fr, v, &v.Call) {
 				continue // frame pushed; idx advanced on return
 			}
@@ -976,12 +984,13 @@ func (e *Engine) havoc(s *state, addr *Term, val *Term) {
 }
 
 func (e *Engine) onStack(s *state, fn *ssa.Function) bool {
+	n := 0
 	for _, f := range s.stack {
 		if f.fn == fn {
-			return true
+			n++
 		}
 	}
-	return false
+	return n > e.maxRec // maxRec recursive activations are inlined (0: none)
 }
 
 func (e *Engine) val(s *state, fr *frame, v ssa.Value) *Term {
